@@ -57,6 +57,16 @@ claim('C16', 'verus',
       'Trusted: Verus/Z3, vstd, rewrites N1-N8, the ASSUMED contract of parse_element (frame scan is a scan, not a proof), lexer output shape. Not decided: lexer partition, build_tree, error spans, re-parse equality.',
       'DESIGN.md §4 C16')
 
+claim('C10', 'kani',
+      'contract-based verification (Kani/CBMC, loop-free full-domain proofs) of the real CodeSpan code, cut mechanically on every run',
+      'Clause decided: the code ranges registered with the runtime are disjoint, so every address resolves to exactly one function - at the level of the ordering the runtime keys its code map with. '
+      'CodeSpan::{new, intersect} and its PartialEq/Eq/PartialOrd/Ord impls (with gc::Address) are cut verbatim and proved, for all usize bounds with no bound on values: intersect <=> real overlap, '
+      'cmp is a strict total order on pairwise disjoint spans (Equal <=> overlap, antisymmetric, transitive) and a one-byte point query is Equal to exactly the containing span and ordered correctly against the rest. '
+      'Failed rows come with CBMC counterexamples replayed on the same cut code.',
+      'Trusted: Kani/CBMC, the rows (contracts/c10_rows.rs). ASSUMED: BTreeMap is a map under a lawful Ord (std; CodeMap::{insert,get} are not composed: BTreeMap exhausts CBMC memory). '
+      'Not decided: presence/shape of stack maps in emitted code, slot ranges, `.s` metadata, arm64, optimizing generator.',
+      'DESIGN.md §4 C10')
+
 NA_REASONS = {
  'C01': 'quantifies over all programs and the behaviour of emitted machine code of two generators (one written in Dora); no function contract can state it',
  'C02': 'relational property between two compilers over all programs and run-time values; memory safety of generated code is not a property of a Rust function',
